@@ -4,8 +4,10 @@ META = {
     "text": "TLC explores the helper's five statements for every small file and every presence combination of permission/owner/time/size fields and checks the result has the local-filesystem meaning (truncate keeps leading bytes, extension pads with zeros, untouched fields stay); each model case is rendered to a real file and run through set_file_attr; seeded random files and attribute changes go through a real SFTPClient/SFTPServer pair by path and by handle; os.stat and file bytes before/after every change are validated by the trace spec",
     "note": "trusted: TLC, os.stat/os.read of the running kernel as the observer, the in-process server interface (a copy of the test-suite stub that delegates to the standard helper); times are whole seconds (all SFTP v3 carries); permission words exclude setuid/setgid when an owner or size change is in the same trace (the kernel clears them for os.chown too)",
 }
+import json
 import os
 import random
+import re
 import time
 
 from harness.core import cfg_text, Machinery
@@ -76,6 +78,16 @@ def apply_op(route, target, a, path):
     from paramiko import SFTPServer
     if route == "direct":
         return SFTPServer.set_file_attr(path, to_sftp_attr(a))
+    if route == "env":          # the reference itself: the os.* call the attribute names, behind the server's back
+        if a["has_perm"]:
+            os.chmod(path, a["perm"])
+        if a["has_own"]:
+            os.chown(path, a["uid"], a["gid"])
+        if a["has_time"]:
+            os.utime(path, (unlimbs(a["atime"]), unlimbs(a["mtime"])))
+        if a["has_size"]:
+            os.truncate(path, a["size"])
+        return None
     args = (os.path.basename(path),) if route == "path" else ()
     n = sum(a[k] for k in ("has_perm", "has_own", "has_time", "has_size"))
     if n != 1:
@@ -135,8 +147,45 @@ def run_step(route, target, a, path):
     if kind == "exc" and isinstance(val, Machinery):
         raise val
     after = observe(path)
-    return {"before": before, "attr": a, "after": after, "raised": kind == "exc",
+    return {"before": before, "attr": a, "after": after, "raised": kind == "exc", "kind": "attr", "route": route,
             "exc": repr(val) if kind == "exc" else ""}
+
+
+def write_step(path, fh, rnd):
+    """a mutation between attribute changes: overwrite the first byte (through the open handle when there is a
+    writable one, else directly); moves mtime to the clock"""
+    before = observe(path)
+    if fh is not None:
+        fh.seek(0)
+        fh.write(b"\x03")
+        fh.flush()
+    else:
+        fd = os.open(path, os.O_WRONLY)
+        try:
+            os.write(fd, b"\x03")
+        finally:
+            os.close(fd)
+    return {"before": before, "attr": empty_attr(), "after": observe(path), "raised": False, "kind": "write", "route": "env", "exc": ""}
+
+
+def session_steps(hist):
+    """SetAttr_Session's <<route, kind, v1, v2>> tuples -> (route, attr | None)"""
+    out = []
+    for route, kind, v1, v2 in hist:
+        a = empty_attr()
+        if kind == 1:
+            a["has_perm"], a["perm"] = True, v1
+        elif kind == 2:
+            a["has_own"], a["uid"], a["gid"] = True, v1, v2
+        elif kind == 3:
+            a["has_time"], a["atime"], a["mtime"] = True, [v1, 7], [v2, 7]
+        elif kind == 4:
+            a["has_size"], a["size"] = True, v1
+        out.append(("handle" if route == 0 else "env", a if kind != 5 else None))
+    return out
+
+
+_sess = re.compile(r'<<\s*"SESSION"\s*,([\s\d,<>\-]*)>>')
 
 
 def run(c):
@@ -152,7 +201,7 @@ def run(c):
          expect="KeepsLeadingBytes", name="truncating-open")
     # ... with a non-truncating open it has the local meaning for every file and attribute set of the bound
     r = c.mc_holds("SetAttr", cfg_text(constants=dict(consts, ZeroOnOpen=False),
-                                       invariants=["LocalMeaning", "KeepsLeadingBytes", "PadsWithZeros", "SizeSet", "Ordered", "Emit"]),
+                                       invariants=["LocalMeaning", "KeepsLeadingBytes", "PadsWithZeros", "SizeSet", "Ordered", "StepsCompose", "Emit"]),
                    name="local-meaning", workers=1)
     cases = r.printed("CASE")
     if len(cases) < 1000:
@@ -176,10 +225,36 @@ def run(c):
                           "set_file_attr result differs from SetAttr's final state for attr %r on %r: %r" % (a, f0, got))
     n_rp = len(batch)
 
-    # ---- TV: random files, three routes
+    # ---- M: sequences on one open handle with other mutations in between (SetAttr_Session): every handle step means
+    # the one os.* call it names; a per-handle attribute block that accumulates fields (seeded defect) must be rejected
+    sconsts = dict(consts, MaxLen=2, ZeroOnOpen=False, MaxSteps=3)
+    c.mc("SetAttr_Session", cfg_text(spec="SSpec", constants=dict(sconsts, SharedBlock=True), invariants=["SessionMeaning"]),
+         expect="SessionMeaning", name="seeded-shared-attribute-block")
+    r = c.mc_holds("SetAttr_Session", cfg_text(spec="SSpec", constants=dict(sconsts, SharedBlock=False),
+                                               invariants=["SessionMeaning", "EmitSession"]), name="sessions", workers=1)
+    sessions = [json.loads(m.group(1).replace("<<", "[").replace(">>", "]")) for m in _sess.finditer(r.out)]
+    if len(sessions) != r.out.count('"SESSION"') or len(sessions) < 1000:
+        raise Machinery("parsed %d of %d emitted sessions" % (len(sessions), r.out.count('"SESSION"')))
     rnd = random.Random(c.seed)
     pair = drv.SftpPair(root)
     try:
+        # ---- RP: the model's sessions on a real open handle (a seeded sample in the quick tier)
+        chosen = sessions if not quick else rnd.sample(sessions, 600)
+        for i, hist in enumerate(chosen):
+            name = "se%d" % (i % 32)
+            p = str(root / name)
+            make_file(p, [1, 2], 0o600, 0, 0, 9 * 65536 + 9, 9 * 65536 + 8)
+            fh = pair.client.open(name, "r+", 0)
+            steps = []
+            for route, a in session_steps(hist):
+                steps.append(write_step(p, fh, rnd) if a is None else run_step(route, fh if route == "handle" else None, a, p))
+            fh.close()
+            batch.append({"route": "handle", "steps": steps})
+            c.case(key=("session", tuple(tuple(x) for x in hist)),
+                   sample={"session": hist, "after": steps[-1]["after"]} if i == 7 else None, n=len(steps))
+        n_sessions = len(chosen)
+
+        # ---- TV: random files, three routes, with other mutations of the same file between the changes
         ntr = 150 if quick else 2500
         for t in range(ntr):
             route = ("direct", "path", "handle")[t % 3]
@@ -197,7 +272,16 @@ def run(c):
                 hmode = rnd.choice(["r", "r+", "r+"])
                 fh = target = pair.client.open(name, hmode, rnd.choice([-1, 0, 1, 512]))
             steps = []
-            for _ in range(rnd.randint(1, 5)):
+            for _ in range(rnd.randint(1, 6)):
+                if steps and rnd.random() < 0.5:        # something else touches the file in between
+                    if rnd.random() < 0.4:
+                        steps.append(write_step(p, fh if hmode == "r+" and rnd.random() < 0.6 else None, rnd))
+                    else:
+                        while True:
+                            b = random_attr(rnd, "path", os.path.getsize(p), False)
+                            if not b["time_now"] and not (special and (b["has_own"] or b["has_size"])):
+                                break
+                        steps.append(run_step("env", None, b, p))
                 cur = os.path.getsize(p)
                 while True:
                     a = random_attr(rnd, route, cur, special)
@@ -219,9 +303,12 @@ def run(c):
     c.traces += len(batch)
 
     def describe(tid, clause, row):
-        _, _, line, route, sclass, _ = row
+        _, _, line, _, sclass, _ = row
         s = batch[tid - 1]["steps"][line - 1]
         a = s["attr"]
+        route = s.get("route", batch[tid - 1]["route"])
+        if route == "env" and clause.startswith("P_"):
+            raise Machinery("SetAttr's meaning rejects a plain os.* call (the reference itself): %s on %r -> %r" % (clause, s["before"], s["after"]))
         fields = "+".join(k for k in ("perm", "own", "time", "size") if a["has_" + k])
         b, f = s["before"], s["after"]
         want = {k: a[k] for k in ("perm", "uid", "gid", "atime", "mtime", "size") if a["has_" + {"uid": "own", "gid": "own", "atime": "time", "mtime": "time"}.get(k, k)]}
@@ -231,14 +318,20 @@ def run(c):
                    len(b["content"]), b["content"][:8], b["perm"], b["uid"], b["gid"], unlimbs(b["atime"]), unlimbs(b["mtime"]),
                    len(f["content"]), f["content"][:8], f["perm"], f["uid"], f["gid"], unlimbs(f["atime"]), unlimbs(f["mtime"]),
                    (" raised " + s["exc"]) if s["raised"] else ""))
+        earlier = [{"route": x.get("route"), "kind": x["kind"], "attr": {k: v for k, v in x["attr"].items() if k.startswith("has_") and v}}
+                   for x in batch[tid - 1]["steps"][:line - 1]]
         rep = {"route": route, "attr": a, "before": dict(s["before"], content=s["before"]["content"][:64]),
-               "after": dict(s["after"], content=s["after"]["content"][:64]), "exc": s["exc"]}
+               "after": dict(s["after"], content=s["after"]["content"][:64]), "exc": s["exc"], "earlier_steps_on_this_file": earlier}
+        if earlier:
+            what += " (step %d of a sequence on one %s)" % (line, "open handle" if batch[tid - 1]["route"] == "handle" else "file")
         return clause, what, rep
     c.verdicts(res["VERDICT"], describe)
     c.rule = ("RP: every (initial file, attribute set) of the bounded model (%d cases: contents over 2 byte values up to %d bytes, "
               "all 16 field-presence combinations, sizes 0..len+1) on SFTPServer.set_file_attr; TV: seeded random files (0-600 bytes) "
-              "with 1-5 attribute changes each via helper / SFTPClient by path / SFTPFile by handle; distinct = (route, fields present, "
-              "size class, small-length class)" % (n_rp, consts["MaxLen"]))
+              "with 1-6 attribute changes each via helper / SFTPClient by path / SFTPFile by one open handle, with writes and direct os.chmod/"
+              "chown/utime/truncate calls on the served file in between; %d of the %d three-step sessions of SetAttr_Session (handle "
+              "changes of different kinds interleaved with other mutations) replayed on a real open handle; distinct = (route, fields "
+              "present, size class, small-length class) / session" % (n_rp, consts["MaxLen"], n_sessions, len(sessions)))
     c.extra["exhaustive"] = True
     c.assumptions = ["POSIX filesystem, process runs as root (arbitrary chown)", "timestamps are whole seconds below 2^32",
                      "no setuid/setgid permission bits in traces that also change owner or size"]
